@@ -414,6 +414,8 @@ def _history_step(cur, op, pos, k):
         part = list(sts.before_odes)
     else:
         part = list(sts)
+    if op == 'del' and not any(st.symbol.name.startswith('ZZ') for st in part):
+        op = 'ins'          # only statements inserted by the history are deleted (the model must stay consistent)
     if op == 'ins':
         pos = pos % (len(part) + 1)
         free = [c for c in ('WGT', 'APGR', 'AGE', 'WT') if c in cur.datainfo.names] or ['TIME']
@@ -424,8 +426,7 @@ def _history_step(cur, op, pos, k):
         part[pos] = Assignment.create(st.symbol, st.expression + Expr.integer(1))
     else:
         zz = [i for i, st in enumerate(part) if st.symbol.name.startswith('ZZ')]
-        pos = zz[pos % len(zz)] if zz else pos % len(part)
-        del part[pos]
+        del part[zz[pos % len(zz)]]
     if sts.ode_system is not None:
         new = Statements(part) + sts.ode_system + sts.after_odes
     else:
